@@ -397,6 +397,11 @@ fn create_outquery(id: u16, in_query: &dnspkt::DNSPkt) -> dnspkt::DNSPkt {
     }
 }
 
+#[cfg(feature = "verif-hooks")]
+pub(super) fn verif_create_outquery(id: u16, in_query: &dnspkt::DNSPkt) -> dnspkt::DNSPkt {
+    create_outquery(id, in_query)
+}
+
 #[derive(Clone)]
 pub struct OutQuery;
 
